@@ -263,11 +263,24 @@ pub fn on_fresh_thread_sized<F: FnOnce() -> Vec<String> + Send + 'static>(stack:
     }
 }
 
+thread_local! {
+    /// Display of the first error `eval_form` met on this thread since it was last cleared: the MESSAGE the front ends print
+    pub static FIRST_ERR_MSG: std::cell::RefCell<Option<String>> = std::cell::RefCell::new(None);
+}
+
 pub fn eval_form(it: &mut Interpreter<f32>, text: &str) -> String {
     match catch_unwind(AssertUnwindSafe(|| it.eval(text.chars()))) {
         Ok(Ok(Some(v))) => format!("V {}", canon_value(&v)),
         Ok(Ok(None)) => "N".to_string(),
-        Ok(Err(e)) => canon_err(&e),
+        Ok(Err(e)) => {
+            FIRST_ERR_MSG.with(|m| {
+                let mut m = m.borrow_mut();
+                if m.is_none() {
+                    *m = Some(format!("{}", e));
+                }
+            });
+            canon_err(&e)
+        }
         Err(p) => panic_message(p),
     }
 }
